@@ -142,9 +142,9 @@ func vhStorageStep(ids []SlabID) {
 		view[i] = s.view()
 	}
 	logBefore := len(base.log)
-	op := vhChoose("op", 9)
+	op := vhChoose("op", 10)
 	k := 0
-	if op <= 4 {
+	if op <= 4 || op == 9 {
 		k = vhChoose("which", nids)
 	}
 	id := ids[k]
@@ -202,6 +202,26 @@ func vhStorageStep(ids []SlabID) {
 		st.DropCache()
 		for i, s := range states {
 			view[i] = s.committed()
+		}
+	case 9: // a ledger read fails: external error, and NOTHING is remembered about it --
+		// once the ledger answers again the view is what it was
+		base.retrFail = base.nretr + 1
+		var err error
+		switch vhChoose("readapi", 3) {
+		case 0:
+			_, _, err = st.Retrieve(id)
+		case 1:
+			_, _, err = st.RetrieveIgnoringDeltas(id, vhChoose("fill", 2) == 1)
+		case 2:
+			err = st.BatchPreload([]SlabID{id}, 1)
+		}
+		reached := base.nretr >= base.retrFail
+		base.retrFail = 0
+		if reached {
+			vhAssert(err != nil, "failing ledger read surfaces")
+			vhAssert(vhIsExternal(err), "failing ledger read is an external error")
+		} else {
+			vhAssert(err == nil, "read served without the ledger succeeds")
 		}
 	case 8: // preload (sequential path) never changes the view
 		err := st.BatchPreload(ids, 2)
